@@ -479,6 +479,8 @@ def classify_kani(h, r):
         if r['cover'] and r['cover'][0] < r['cover'][1]:
             return 'UNDECIDED', 'vacuity guard: cover not satisfied'
         return 'OK', ''
+    if r['status'] == 'FAILED' and any('not currently supported by Kani' in f['desc'] or 'unsupported construct' in f['desc'].lower() for f in fcs):
+        return 'UNDECIDED', 'construct not supported by Kani: %s' % [f['desc'][:160] for f in fcs][:2]
     if r['status'] == 'FAILED':
         if any('unwinding assertion' in f['desc'] for f in fcs) and all('unwinding' in f['desc'] or 'undetermined' in f['desc'] for f in fcs):
             return 'UNDECIDED', 'unwinding bound too small: %s' % fcs[:2]
